@@ -324,3 +324,19 @@ func QuickPKI() *PKI {
 	}
 	return quickPKI
 }
+
+// MasterListSpec describes a CSCA master list (ICAO 9303-12 section 9).
+type MasterListSpec struct {
+	Certs [][]byte // CSCA certificates in the list
+}
+
+// MasterListContent builds CscaMasterList ::= SEQUENCE { version INTEGER(0), certList SET OF Certificate }.
+func MasterListContent(certs [][]byte) []byte {
+	return der.Seq(der.Int64(0), der.SetUnsorted(certs...))
+}
+
+// QuickSecurityInfos returns a small SecurityInfos SET (one PACEInfo) for objects that
+// only need parseable content.
+func QuickSecurityInfos() []byte {
+	return der.Set(der.Seq(der.OID(0, 4, 0, 127, 0, 7, 2, 2, 4, 2, 2), der.Int64(2), der.Int64(13)))
+}
